@@ -110,6 +110,8 @@ func named(typ, pat, path, name string) leafDef {
 // leaves that both a type and a pattern can spell
 var patLeaves = []leafDef{
 	basic("int", 2), basic("string", 17), basic("bool", 1), basic("float64", 14), basic("int32", 5), basic("uint8", 8),
+	basic("int8", 3), basic("int16", 4), basic("int64", 6), basic("uint", 7), basic("uint16", 9), basic("uint32", 10), basic("uint64", 11),
+	basic("uintptr", 12), basic("float32", 13), basic("complex64", 15), basic("complex128", 16),
 	{"byte", "byte", "PBuiltin (T (HBasic 8) [])"}, {"rune", "rune", "PBuiltin (T (HBasic 5) [])"},
 	{"error", "error", `PBuiltin (T (HNamed 0 "" "error") [])`},
 	{"unsafe.Pointer", "unsafe.Pointer", "PBuiltin (T (HBasic 18) [])"},
@@ -146,6 +148,15 @@ var extraLeaves = []leafDef{
 	named("ATa", "pool.ATa", "example.com/c10/pool", "ATa"),
 }
 
+func leafByType(t string) leafDef {
+	for _, d := range patLeaves {
+		if d.typ == t {
+			return d
+		}
+	}
+	panic("no leaf " + t)
+}
+
 func leafNode(d leafDef) *node { return &node{k: "leaf", s: d.typ, pat: d.pat, coq: d.coq} }
 
 func genType(r *rand.Rand, depth int) *node {
@@ -164,7 +175,7 @@ func genType(r *rand.Rand, depth int) *node {
 	case 2:
 		return &node{k: "arr", s: []string{"0", "2", "3", "8"}[r.Intn(4)], subs: []*node{sub()}}
 	case 3:
-		keys := []leafDef{patLeaves[0], patLeaves[1], patLeaves[16], patLeaves[11]}
+		keys := []leafDef{leafByType("int"), leafByType("string"), leafByType("N"), leafByType("ta.Template"), leafByType("uint16")}
 		return &node{k: "map", subs: []*node{leafNode(keys[r.Intn(len(keys))]), sub()}}
 	case 4:
 		return &node{k: "chan", s: []string{"chan", "<-chan", "chan<-"}[r.Intn(3)], subs: []*node{sub()}}
@@ -803,6 +814,8 @@ func bit(b bool) byte {
 }
 
 var fixedTypes = []string{
+	"int8", "int16", "int32", "int64", "uint", "uint8", "uint16", "uint32", "uint64", "uintptr", "float32", "float64", "complex64", "complex128",
+	"string", "bool", "byte", "rune",
 	"func(int, int, string)", "func(int, string)", "func(string)", "func(int, string, int, string)", "func()", "func(int) int",
 	"func(int, string) (string, int)", "func(...int)", "func([]int)", "func(int, ...string)", "func(int, []string)",
 	"struct{ F0 int; F1 string }", "struct{ F0 int; F1 int; F2 string }", "struct{ F0 *int; F1 int; F2 *int }", "struct{}",
@@ -816,6 +829,8 @@ var fixedTypes = []string{
 
 // hand-written patterns (string, expected term); "" expected = do not compare the tree
 var fixedPats = []string{
+	"int8", "int16", "int32", "int64", "uint", "uint8", "uint16", "uint32", "uint64", "uintptr", "float32", "float64", "complex64", "complex128",
+	"string", "bool", "byte", "rune", "int",
 	"func($*_, int, string)", "func($*_, $x, $x)", "func($x, $*_, $x)", "func($*_, $x, $*_, $x)", "func($*_, $x, $*_) $x",
 	"func($*_, *$x, $*_) $x", "func($*_, $x, $*_) *$x", "func($*_) $_", "func($*_)", "func($*_, $*_)", "func($_, $*_)", "func($*_, $_)",
 	"func([]int)", "func(int, []string)", "func($_)", "func($_, $*_, []string)", "func(int, $*_)",
